@@ -66,7 +66,11 @@ def r3_const_uses(toks, const_names, self_is_bnum, log):
             # find the path head
             j = i - 2
             head = toks[j]
-            if head == '>':
+            if head == '>' and i >= 4 and toks[i - 4:i - 1] == ['<', 'Self', '>'] and (i < 5 or toks[i - 5] != '::'):
+                # qualified-self form `< Self > :: X` (as produced by `<$ty>::ONE` in macros)
+                j = i - 3
+                head = 'Self'
+            elif head == '>':
                 # generic args `:: < N > ::` : walk back to '<'
                 d = 0
                 while j >= 0:
@@ -236,6 +240,24 @@ def rename_idents(toks, mapping, log):
             log['R13'] = log.get('R13', 0) + 1
         else:
             out.append(t)
+    return out
+
+
+def r14_digit_from_bytes(toks, log):
+    """R14: `u64 :: from_be_bytes (`  ->  `bn_u64_from_be_bytes (`  (also `from_le_bytes`, all four digit
+    types).  core's signature `[u8; size_of::<Self>()]` cannot be named in an `assume_specification`,
+    so the call goes to a trusted `external_body` wrapper declared by the overlay unit."""
+    out = []
+    i = 0
+    n = len(toks)
+    while i < n:
+        if toks[i] in ('u8', 'u16', 'u32', 'u64') and i + 3 < n and toks[i + 1] == '::' and toks[i + 2] in ('from_be_bytes', 'from_le_bytes') and toks[i + 3] == '(' and (i == 0 or toks[i - 1] != '::'):
+            out.append('bn_' + toks[i] + '_' + toks[i + 2])
+            log['R14'] = log.get('R14', 0) + 1
+            i += 3
+            continue
+        out.append(toks[i])
+        i += 1
     return out
 
 
